@@ -139,7 +139,7 @@ def check(ctx, floors=True, only_literals=False):
             ok = first is not None and first[0] == "interp" and peel(first[1].get("ty", "")).endswith("settings::AllocCratePath")
             ctx.expect(ok, "C09.3", "alloc-rooted/%s/%s" % (cshort(b["path"]), text), node["sp"], "rooted at an interpolated AllocCratePath",
                        "template `%s` names a heap-allocated prelude type but does not start with the AllocCratePath interpolation" % text)
-    ctx.count("alloc-rooted templates", n_alloc, 6)
+    ctx.count("alloc-rooted templates", n_alloc, 3)      # 9 on the reference tree; arms that share a template are one
     # literal root check: no template starts with a literal `:: core ::`-less absolute root other than core
     for b, node, items, kind in tpls:
         text = T.render_pos(items)
